@@ -351,13 +351,13 @@ impl TextSelection {
                         x
                     }
                     Cursor::EndAligned(x) => {
-                        if textlen < x.abs() as usize {
+                        if textlen < x.unsigned_abs() {
                             return Err(StamError::CursorOutOfBounds(
                                 offset.begin,
                                 "(textselection_by_offset)",
                             ));
                         } else {
-                            textlen - (x.abs() as usize)
+                            textlen - x.unsigned_abs()
                         }
                     }
                 },
@@ -375,13 +375,13 @@ impl TextSelection {
                         x
                     }
                     Cursor::EndAligned(x) => {
-                        if textlen < x.abs() as usize {
+                        if textlen < x.unsigned_abs() {
                             return Err(StamError::CursorOutOfBounds(
                                 offset.end,
                                 "(textselection_by_offset)",
                             ));
                         } else {
-                            textlen - (x.abs() as usize)
+                            textlen - x.unsigned_abs()
                         }
                     }
                 },
@@ -395,13 +395,13 @@ impl TextSelection {
         match *cursor {
             Cursor::BeginAligned(cursor) => Ok(cursor),
             Cursor::EndAligned(cursor) => {
-                if cursor.abs() as usize > textlen {
+                if cursor.unsigned_abs() > textlen {
                     Err(StamError::CursorOutOfBounds(
                         Cursor::EndAligned(cursor),
                         "TextResource::beginaligned_cursor(): end aligned cursor ends up before the beginning",
                     ))
                 } else {
-                    Ok(textlen - cursor.abs() as usize)
+                    Ok(textlen - cursor.unsigned_abs())
                 }
             }
         }
